@@ -560,6 +560,14 @@ class Flattener(object):
             if tail:
                 return inner + self.inline_stmt(tail[0], cls, stack)
             return inner
+        # 2b. a statement helper as (part of) the test of a while loop: the test is evaluated at the top of an endless loop
+        if isinstance(stmt, ast.While) and not stmt.orelse and self.statement_helper_in(stmt.test, cls, stack) and \
+                not (isinstance(stmt.test, ast.Constant)):
+            brk = ast.copy_location(ast.If(test=ast.copy_location(ast.UnaryOp(op=ast.Not(), operand=stmt.test), stmt.test),
+                                           body=[ast.copy_location(ast.Break(), stmt)], orelse=[]), stmt)
+            body = [b for b in stmt.body if not isinstance(b, ast.Pass)]
+            new_loop = ast.copy_location(ast.While(test=ast.copy_location(ast.Constant(value=True), stmt.test), body=[brk] + body, orelse=[]), stmt)
+            return self.inline_stmt(new_loop, cls, stack)
         # 3. recurse into compound statements
         for field in ('body', 'orelse', 'finalbody'):
             blk = getattr(stmt, field, None)
@@ -709,7 +717,72 @@ class Flattener(object):
         uses = [n for n in ast.walk(self._node) if isinstance(n, ast.Name) and n.id == name and isinstance(n.ctx, ast.Load)]
         return defs[0] if len(defs) == 1 and len(uses) == 1 else None
 
+    def _anyall(self, call):
+        """(kind, generator) for any(<genexp>) / all(<genexp>) with one generator"""
+        if isinstance(call, ast.Call) and isinstance(call.func, ast.Name) and call.func.id in ('any', 'all') and len(call.args) == 1 \
+                and not call.keywords and isinstance(call.args[0], (ast.GeneratorExp, ast.ListComp)) and len(call.args[0].generators) == 1:
+            return call.func.id, call.args[0]
+        return None
+
+    def _anyall_loop(self, kind, gen, name, at):
+        """name = any(elt for t in it if c)  ==>  name = False; for t in it: if c: if elt: name = True; break   (all: dually)"""
+        g0 = gen.generators[0]
+        hit = ast.copy_location(ast.Assign(targets=[ast.Name(id=name, ctx=ast.Store())], value=ast.Constant(value=(kind == 'any'))), at)
+        test = gen.elt if kind == 'any' else ast.copy_location(ast.UnaryOp(op=ast.Not(), operand=gen.elt), gen.elt)
+        body = [ast.copy_location(ast.If(test=test, body=[hit, ast.copy_location(ast.Break(), at)], orelse=[]), at)]
+        for cond in reversed(g0.ifs):
+            body = [ast.copy_location(ast.If(test=cond, body=body, orelse=[]), at)]
+        loop = ast.For(target=g0.target, iter=g0.iter, body=body, orelse=[], type_comment=None)
+        init = ast.Assign(targets=[ast.Name(id=name, ctx=ast.Store())], value=ast.Constant(value=(kind != 'any')))
+        self.desugared += 1
+        return [ast.copy_location(init, at), ast.copy_location(loop, at)]
+
     def desugar_stmt(self, s):
+        # getattr(x, 'Name') with a literal name is the attribute x.Name
+        class GA(ast.NodeTransformer):
+            def __init__(self):
+                self.n = 0
+
+            def visit_Call(self, node):
+                self.generic_visit(node)
+                if isinstance(node.func, ast.Name) and node.func.id == 'getattr' and len(node.args) == 2 and not node.keywords and \
+                        isinstance(node.args[1], ast.Constant) and isinstance(node.args[1].value, str) and node.args[1].value.isidentifier():
+                    self.n += 1
+                    return ast.copy_location(ast.Attribute(value=node.args[0], attr=node.args[1].value, ctx=ast.Load()), node)
+                return node
+        if not isinstance(s, (ast.For, ast.While, ast.If, ast.Try, ast.With, ast.FunctionDef, ast.ClassDef)):
+            ga = GA()
+            s = ga.visit(s)
+            self.desugared += ga.n
+        # a loop over a short literal tuple of constants is its unrolling
+        if isinstance(s, ast.For) and isinstance(s.iter, (ast.Tuple, ast.List)) and 0 < len(s.iter.elts) <= 8 and not s.orelse and \
+                all(isinstance(e, ast.Constant) for e in s.iter.elts) and isinstance(s.target, ast.Name) and \
+                not _contains(s.body, (ast.Break, ast.Continue)) and s.target.id not in _stored_names(ast.Module(body=s.body, type_ignores=[])):
+            out = []
+            for e in s.iter.elts:
+                for st in s.body:
+                    out.append(_Subst({s.target.id: e}, {}).visit(clone(st)))
+            self.desugared += 1
+            return self.desugar(out)
+        # any / all over a generator: as a returned value, an assigned value, or the whole test of an if
+        if isinstance(s, ast.Return) and self._anyall(s.value):
+            kind, gen = self._anyall(s.value)
+            name = self.fresh('_any', next(self.counter))
+            return self._anyall_loop(kind, gen, name, s) + [ast.copy_location(ast.Return(value=ast.Name(id=name, ctx=ast.Load())), s)]
+        if isinstance(s, ast.Assign) and len(s.targets) == 1 and isinstance(s.targets[0], ast.Name) and self._anyall(s.value):
+            kind, gen = self._anyall(s.value)
+            return self._anyall_loop(kind, gen, s.targets[0].id, s)
+        if isinstance(s, ast.If):
+            t = s.test
+            neg = False
+            if isinstance(t, ast.UnaryOp) and isinstance(t.op, ast.Not):
+                t, neg = t.operand, True
+            if self._anyall(t):
+                kind, gen = self._anyall(t)
+                name = self.fresh('_any', next(self.counter))
+                nm = ast.Name(id=name, ctx=ast.Load())
+                s.test = ast.copy_location(ast.UnaryOp(op=ast.Not(), operand=nm), s.test) if neg else ast.copy_location(nm, s.test)
+                return self._anyall_loop(kind, gen, name, s) + [s]
         # value <- c ? a : b        (return / assignment to one name)
         def split(value, make):
             if isinstance(value, ast.IfExp):
@@ -814,4 +887,31 @@ def flatten(prog, fi, accept=None):
         out.origin = fi
         out.inlined = sorted(set(fl.inlined))
     cache[key] = out
+    return out
+
+
+def judged_at_callers(prog, funcs):
+    """keys of the private functions among `funcs` every textual call of which (in `funcs`) sits in a function whose
+    flattened form has the callee inlined and no call to it left: such a helper is judged as part of its callers"""
+    flats = {f.key: flatten(prog, f) for f in funcs}
+    out = set()
+    for f in funcs:
+        if not _is_private(f.name):
+            continue
+        textual = covered = 0
+        for o in funcs:
+            if o.key == f.key:
+                continue
+            k = sum(1 for c in ast.walk(o.node) if isinstance(c, ast.Call) and (
+                (isinstance(c.func, ast.Attribute) and c.func.attr == f.name) or (isinstance(c.func, ast.Name) and c.func.id == f.name)))
+            if not k:
+                continue
+            textual += k
+            ofl = flats[o.key]
+            left = any(isinstance(c, ast.Call) and ((isinstance(c.func, ast.Attribute) and c.func.attr == f.name) or
+                                                    (isinstance(c.func, ast.Name) and c.func.id == f.name)) for c in ast.walk(ofl.node))
+            if f.key in getattr(ofl, 'inlined', ()) and not left:
+                covered += k
+        if textual and textual == covered:
+            out.add(f.key)
     return out
